@@ -31,8 +31,8 @@ type anchorRec struct {
 	Feats []string `json:"feats"`
 }
 
-var canonName = map[*ssa.Function]string{}   // renamed function → recorded full name
-var aliasFunc = map[string]*ssa.Function{}   // pkg + "\x00" + recorded lookup name → function
+var canonName = map[*ssa.Function]string{} // renamed function → recorded full name
+var aliasFunc = map[string]*ssa.Function{} // pkg + "\x00" + recorded lookup name → function
 var renameNotes []string
 
 func lookupName(f *ssa.Function) string {
